@@ -20,6 +20,7 @@ CONSTANTS
   FrameOK <- FrameAny
   KeepHist = FALSE
   MaxQueued <- Many
+  Truncation = TRUE
 CONSTRAINT Progress
 INVARIANTS InOrder FramingInv BufferInv PongsOk WritesOk OutContig DiscOk
 POSTCONDITION Accepted
